@@ -48,7 +48,8 @@ def main():
             if req.get("cross") and verdict == "proved":
                 rec["cross"] = smt.cross_check(ob, ax, int(req.get("cross_s", 10)))
             out["obligations"].append(rec)
-            relevant = not (ob.kind == "post" and ob.props and req.get("pid") and req["pid"] not in ob.props)
+            pids_ = set(req.get("pids") or ([req["pid"]] if req.get("pid") else []))
+            relevant = not (ob.kind == "post" and ob.props and pids_ and not (pids_ & set(ob.props)))
             if req.get("canary") and verdict != "proved" and relevant and ob.name.split("[")[0] not in (req.get("ignore") or []) \
                     and ob.name not in (req.get("ignore") or []):
                 break
